@@ -122,6 +122,20 @@ def items(tier, seed):
         s = si_prefixed(sym, info, U)
         if s is not None:
             out.append({"k": "prefix", "u": sym, "exp10": s[0], "base": s[1]})
+    # rows of one quantity type that share their registered NAME (kgf.m/dega / kgf.m/rad ...): the Scalar route between them converts like the closures
+    byname = {}
+    for sym, info in U.items():
+        if info.quantity_type in db.categories_to_quantity_types:
+            byname.setdefault((info.quantity_type, info.name), []).append(sym)
+    for (_qt, _nm), syms in sorted(byname.items()):
+        if len(syms) > 1:
+            for a_ in syms:
+                for b_ in syms:
+                    if a_ != b_:
+                        out.append({"k": "same_name", "u": a_, "v": b_})
+    # history: a PRIVATE database defining the same symbols with other factors was used just before (nothing of it may reach the shipped table)
+    for sym in ("ft/s", "kPa", "lbm/ft3", "km/h", "MPa", "1/galUS"):
+        out.append({"k": "after_private_database", "u": sym})
     # history: a registration of the row's symbol with OTHER formulas was refused just before; the row must still carry the shipped factor
     rows = [c for c in out if c["k"] in ("compound", "prefix")]
     for c in rows[::(25 if tier == "quick" else 4)]:
@@ -143,6 +157,31 @@ def run(cfg, V):
 
     if cfg["k"] == "count":
         return dict(cfg)
+    if cfg["k"] == "same_name":
+        from .common import pushed
+
+        d0 = get_db("default")
+        iu, iv = d0.unit_to_unit_info[cfg["u"]], d0.unit_to_unit_info[cfg["v"]]
+        with pushed(d0):
+            s = Scalar(V["x"], cfg["u"])
+            vals = [s.GetValue(cfg["v"]), s.CreateCopy(unit=cfg["v"]).GetValue(), s.GetQuantity().ConvertScalarValue(V["x"], cfg["v"]), d0.Convert(iu.quantity_type, cfg["u"], cfg["v"], V["x"])]
+        return {"vals": vals, "want": iv.frombase(iu.tobase(V["x"]))}
+    if cfg["k"] == "after_private_database":
+        from barril.units import UnitDatabase
+        from .common import fresh_posc_db, pushed
+
+        ref = get_db("default").unit_to_unit_info[cfg["u"]]
+        priv = UnitDatabase()
+        priv.AddUnitBase(ref.quantity_type, "private base", "pb")
+        priv.AddUnit(ref.quantity_type, "private " + ref.name, cfg["u"], lambda t: t / 7.0, lambda t: t * 7.0)
+        priv.AddCategory(ref.quantity_type, ref.quantity_type)
+        sdb = fresh_posc_db()  # built BEFORE the private database is used; no registration happens afterwards
+        base_u = sdb.GetUnits(ref.quantity_type)[0]
+        with pushed(priv):
+            pv = [priv.Convert(ref.quantity_type, cfg["u"], "pb", V["x"]), Scalar(V["x"], cfg["u"]).GetValue("pb"), priv.GetInfo(ref.quantity_type, cfg["u"]).unit]
+        with pushed(sdb):
+            vals = [sdb.Convert(ref.quantity_type, cfg["u"], base_u, V["x"]), Scalar(V["x"], cfg["u"]).GetValue(base_u), sdb.Convert(ref.quantity_type, cfg["u"], base_u, [V["x"]])[0]]
+        return {"vals": vals, "want": ref.tobase(V["x"]), "private": pv[:2], "private_want": V["x"] * 7.0}
     if cfg["k"] == "after_refused_addunit":
         from .common import fresh_posc_db, pushed
 
@@ -241,6 +280,12 @@ def props(cfg, T, obs):
         if obs.isa(ValueError) and cfg["k"] == "compound" and len(cfg["comps"]) == 1 and cfg["comps"][0][1] < 0:
             return []  # the exponent conversion route takes 0 ** (1/negative): math domain error for the amount 0 (C02 states this exemption)
         return [("the row's closure and the component arithmetic do not raise", False)]
+    if cfg["k"] == "same_name":
+        return [("rows that share a registered name are still different units: the Scalar / Quantity / database routes between them convert like the closures",
+                 z3.And(*[approx(v, obs["want"]) for v in obs["vals"]]))]
+    if cfg["k"] == "after_private_database":
+        return [("a private database that defines the symbol differently does not leak into the shipped table (nor the other way round)",
+                 z3.And(*[approx(v, obs["want"]) for v in obs["vals"]], *[approx(v, obs["private_want"]) for v in obs["private"]]))]
     if cfg["k"] == "after_refused_addunit":
         return [("a registration of an existing symbol is refused", bool(obs["refused"])),
                 ("after the refused registration the row converts with its shipped factor on every route", z3.And(*[approx(v, obs["want"]) for v in obs["vals"]], approx(obs["back"], T["x"])))]
@@ -295,6 +340,8 @@ def props(cfg, T, obs):
 
 
 def finding_key(cfg, name):
+    if cfg["k"] in ("same_name", "after_private_database"):
+        return "%s %s %s :: %s" % (cfg["k"], cfg["u"], cfg.get("v", ""), name)
     if cfg["k"] == "after_refused_addunit":
         return "after a refused AddUnit of the symbol %s :: %s" % (cfg["u"], name)
     if "u" in cfg and (name.startswith("the unit string of the built") or name.startswith("the row's factor is applied alike")):
